@@ -57,7 +57,8 @@ MidInit(fx) ==
   /\ tail = [f \in Files |-> FALSE]
   /\ jr = [f \in Files |-> [st |-> o[f].j, n |-> o[f].jn]]
   /\ cdx = <<>> /\ ex = {f \in Files : o[f].x} /\ cdxEx = TRUE
-  /\ pc = "idle" /\ todo = <<S("append", e.ty, "none")>>
+  \* (the constructor appends the first warcinfo record before it sets up the CDX index: e.cx says which it is)
+  /\ pc = "idle" /\ todo = <<S("append", e.ty, "none")>> \o (IF par.cdx /\ ~e.cx THEN <<S("cdxinit", "none", "none")>> ELSE <<>>)
   /\ cur = e.fi /\ seq = 0 /\ winfo = 0 /\ appending = TRUE
   /\ rec = NoRec /\ ap = NoAp
   /\ nextRid = 30 /\ runs = 1 /\ exch = 0 /\ faults = 0 /\ crashes = 0
@@ -120,9 +121,14 @@ TOp ==
      \/ Op("j.exists") /\ UNCHANGED vars
      \/ Op("c.trunc") /\ CdxInit
      \/ Op("c.exists") /\ CdxInit
-     \/ Op("c.open") /\ (IF pc = "c_open" THEN COpen ELSE CHdr(FALSE))
-     \/ Op("c.write") /\ (IF pc = "c_w" THEN CWrite ELSE CHdr(FALSE))
-     \/ Op("c.close") /\ (IF pc = "c_w" THEN CClose ELSE CHdr(TRUE))
+     \/ Op("c.getsize") /\ CGetsize
+     \/ Op("c.open") /\ (IF pc = "rc_open" THEN RCOpen ELSE IF pc = "c_open" THEN (IF Inj THEN ErrCOpen ELSE COpen)
+                          ELSE CHdr(FALSE))
+     \/ Op("c.write") /\ (IF pc = "c_w" THEN (IF Inj THEN ErrCWrite ELSE CWrite) ELSE CHdr(FALSE))
+     \/ Op("c.close") /\ (IF pc = "c_fclose" THEN \E fl \in BOOLEAN : CFClose(fl)
+                          ELSE IF pc = "rc_close" THEN RCClose
+                          ELSE IF pc = "c_w" THEN (IF Inj THEN ErrCClose ELSE CClose) ELSE CHdr(TRUE))
+     \/ Op("c.truncate") /\ RCTrunc
      \/ Op("a.move") /\ Step("move") /\ Head(todo)[2] = "a" /\ Move
      \/ Op("c.move") /\ Step("move") /\ Head(todo)[2] = "c" /\ Move
 
